@@ -160,7 +160,7 @@ func c19Script(r *rand.Rand, x *model.XSeg, others []segment.Segment) []c19Op {
 				e, err := it.Next()
 				if err != nil {
 					it.Next() // polling again after an error must not panic
-					return "", false, err
+					return b.String(), false, err // what was delivered before the error is checked against the healthy prefix
 				}
 				if e == nil {
 					break
@@ -207,7 +207,7 @@ func c19Script(r *rand.Rand, x *model.XSeg, others []segment.Segment) []c19Op {
 						// the end, never a panic (a panic here escapes to the oracle as a violation)
 						it.Next()
 						it.Next()
-						return "", false, err
+						return b.String(), false, err // what was delivered before the error is checked against the healthy prefix
 					}
 					if p == nil {
 						break
@@ -259,7 +259,7 @@ func c19Script(r *rand.Rand, x *model.XSeg, others []segment.Segment) []c19Op {
 					k++
 				})
 				if err != nil {
-					return "", false, err
+					return b.String(), false, err // what was delivered before the error is checked against the healthy prefix
 				}
 			}
 			return b.String(), k == 0, nil
@@ -321,7 +321,7 @@ func c19Script(r *rand.Rand, x *model.XSeg, others []segment.Segment) []c19Op {
 				for k := 0; k < 10; k++ {
 					p, err := it.Next()
 					if err != nil {
-						return "", false, err
+						return b.String(), false, err // what was delivered before the error is checked against the healthy prefix
 					}
 					if p == nil {
 						break
@@ -382,6 +382,7 @@ type c19Outcome struct {
 	res     string
 	empty   bool
 	err     bool
+	tainted bool // answer of a kept object that had already returned an error: not compared
 	panicS  string
 	mutexOK bool
 }
@@ -395,8 +396,8 @@ func c19RunOp(s segment.Segment, op c19Op) c19Outcome {
 	}
 	o.err = err != nil
 	if op.kept != "" && c19St != nil {
-		if c19St.tainted[op.kept] && !o.err && o.panicS == "" {
-			o.err = true // answers of an object that already returned an error are not compared
+		if c19St.tainted[op.kept] && o.panicS == "" {
+			o.err, o.tainted = true, true // answers of an object that already returned an error are not compared
 		}
 		if err != nil {
 			c19St.tainted[op.kept] = true
@@ -439,6 +440,9 @@ func c19Faulted(c *runner.Ctx, path string, ops []c19Op, healthy []c19Outcome, f
 				return false
 			case !o.mutexOK:
 				c.Violate("mutex-leaked:"+phase, fmt.Sprintf("after %s returned the segment mutex is still held: the next call needing it blocks forever", op.name), where)
+				return false
+			case o.err && !o.tainted && !strings.HasPrefix(healthy[i].res, o.res):
+				c.Violate("wrong-partial-result:"+phase+":"+strings.SplitN(op.name, "(", 2)[0], fmt.Sprintf("%s reported an error, but what it had delivered before the error differs from the healthy result (%s)", op.name, phase), "delivered: "+clipS(o.res, 300)+"\nhealthy: "+clipS(healthy[i].res, 300)+"\n"+where)
 				return false
 			case !o.err && o.res != healthy[i].res && !o.empty:
 				c.Violate("wrong-result:"+phase+":"+strings.SplitN(op.name, "(", 2)[0], fmt.Sprintf("%s returned a non-empty result without error that differs from the healthy result (%s)", op.name, phase), "got: "+clipS(o.res, 300)+"\nhealthy: "+clipS(healthy[i].res, 300)+"\n"+where)
